@@ -2,6 +2,7 @@
 //! hooks on) on generated cases and writes (a) Coq case files evaluated against the Gallina model
 //! and (b) a JSON-lines file for the exact-rational oracles.
 mod util;
+mod flat;
 mod c15;
 mod c14;
 mod c07;
@@ -30,6 +31,9 @@ fn main() {
                 "C16" => c06::run(seed, n, out, true),
                 "C14" => c14::run(seed, n, out),
                 "C15" => c15::run(seed, n, out),
+                "C02flat" => flat::run(seed, n, out, 2),
+                "C03flat" => flat::run(seed, n, out, 3),
+                "C13flat" => flat::run(seed, n, out, 13),
                 _ => { eprintln!("unknown property {}", prop); std::process::exit(2) }
             }
         }
@@ -39,6 +43,11 @@ fn main() {
             "C04" => loops::replay_c04(&args[3..]),
             "C14" => c14::replay(&args[3..]),
             "C15" => c15::replay(&args[3..]),
+            // composite properties: the first replay argument names the part
+            "C02" | "C03" | "C13" => match args[3].as_str() {
+                "flat" => flat::replay(&args[4..]),
+                _ => { eprintln!("unknown part"); std::process::exit(2) }
+            },
             _ => { eprintln!("unknown property"); std::process::exit(2) }
         },
         _ => std::process::exit(2),
